@@ -46,6 +46,7 @@ t("chan-range", "close(vc)\nr = 0\nfor e in ", " {\n r += 1\n}\nr")
 t("delete-map", "delete(", ", \"k\")\nlen(vm)"); t("delete-key", "delete(vm, ", ")\nlen(vm)")
 t("throw", "func() {\n try {\n  throw ", "\n } catch e {\n  return \"caught\"\n }\n return \"no\"\n}()")
 t("assign-rhs", "x = ", "\nx"); t("assign-multi", "x, y = 1, ", "\n[x, y]"); t("assign-index-target-idx", "a = [1, 2, 3, 4]\na[", "] = 9\na"); t("assign-index-base", "", "[0] = 9\nvl")
+t("addr-then-store", "p = &(", ")\n*p = 5\nq = {}\n[nil, q.nosuch, (func() { })()]");
 t("assign-member", "", ".k = 9\nvm"); t("assign-deref", "*", " = 9\n*vp"); t("assign-map-value", "m = {}\nm.z = ", "\nm"); t("unpack", "x, y = (", ")\n[x, y]"); t("var-unpack", "var x, y = ", "\n[x, y]")
 t("defer-callee", "func() {\n defer ", "(4)\n return 1\n}()"); t("defer-arg", "r = []\nfunc() {\n defer (func(a) { r += a })(", ")\n return 1\n}()\nr")
 t("go-callee", "d = make(chan int64)\ngo ", "(4)\n1"); t("return-value", "func() { return ", " }()"); t("return-multi", "func() { return 1, ", " }()")
@@ -85,7 +86,9 @@ def run(ctx):
     for r, op in results:
         vlib.tlc_ok(ctx, r, "MC_AnkoProvenance")
         # (x ?? nil) is the identity on every value except a nil of a concrete type, which it turns into the plain nil: not a hop for those
-        obs = [o for o in vlib.read_ndjson(op) if (o["t"], o["v"]) not in EXCLUDE and not (o["v"] in ("vns", "vnm", "vnp") and "nilco" in o["chain"])]
+        # &x of an element of a TYPED list is a pointer of that element type: storing an int64 through it is a typed store (C10), not a provenance effect
+        obs = [o for o in vlib.read_ndjson(op) if (o["t"], o["v"]) not in EXCLUDE and not (o["v"] in ("vns", "vnm", "vnp") and "nilco" in o["chain"])
+               and not (o["t"] == "addr-then-store" and o["chain"] and o["chain"][0] == "ntelem")]
         slim = os.path.join(ctx.work, "prov_obs.ndjson")
         vlib.write_ndjson(slim, [{"got": o["got"], "base": o["base"]} for o in obs])
         rej, total, rr = vlib.validate_lines(ctx, "Trace_AnkoProvenance", "Trace_AnkoProvenance.cfg", [slim], timeout=3000)
@@ -121,12 +124,20 @@ def run(ctx):
         ctx.cov["controls"].append({"control": "an outcome whose dynamic type differs from the bare one must be rejected", "detected": ok})
         if not ok:
             raise Broken("corruption control failed")
+    # a callee is an operand too: a call site evaluated again calls the function its name holds NOW, script or Go function alike, whatever it called
+    # before (absolute expectations from the reference semantics AnkoSem -- the relational law cannot see a difference that hits every provenance)
+    import corecheck, progs
+    fam = [q for q in progs.fam_closures() if "callsite" in q["id"]]
+    corecheck.run_family(ctx, vlib.build_harness(ctx, "vmharness"), fam, "c20-callsites", deviations=False)
     return vlib.finish(ctx, RULE, exhaustive=True)
 
 
 def replay(ctx, path):
-    binp = vlib.build_harness(ctx, "provharness")
     p = json.load(open(path))
+    if p.get("kind") in ("semantic", "panic"):
+        import corecheck
+        return corecheck.replay_one(ctx, vlib.build_harness(ctx, "vmharness"), path)
+    binp = vlib.build_harness(ctx, "provharness")
     o = p["obs"]
     d = os.path.join(ctx.work, "one.out")
     open(d, "w").write(json.dumps(json.dumps({"t": o["t"], "v": o["v"], "chain": o["chain"], "src": o["src"], "basesrc": o["basesrc"]})) + "\n")
